@@ -260,12 +260,20 @@ OrderStep(c, K, tol, a, s, legs, st, frac) ==
 \* ------------------------------------------------------------------ dispatch
 NLegs(a) == CASE a.kind = "transport" -> 1 [] a.kind = "orderbook" -> 0 [] OTHER -> 2
 
-AssetStep(c, K, tol, a, s, legs, st, frac) ==
+BaseStep(c, K, tol, a, s, legs, st, frac) ==
   CASE a.kind = "contract"  -> ContractStep(c, K, tol, a, s, legs, st)
     [] a.kind = "multi"     -> MultiStep(c, K, tol, a, s, legs, st)
     [] a.kind = "transport" -> TransportStep(c, K, tol, a, s, legs, st)
     [] a.kind = "storage"   -> StorageStep(c, K, tol, a, s, legs, st)
     [] a.kind = "orderbook" -> OrderStep(c, K, tol, a, s, legs, st, frac)
+
+\* An asset held at a fixed scale is its base asset with all capacities multiplied (that is how the configuration
+\* states it) less fixed costs  a.fixrate = scale x cost rate  per tick of its active duration -- not discounted.
+AssetStep(c, K, tol, a, s, legs, st, frac) ==
+  LET r == BaseStep(c, K, tol, a, s, legs, st, frac) IN
+  IF "fixrate" \in DOMAIN a /\ Active(c, a, s)
+  THEN [r EXCEPT !.cost = @ + a.fixrate * c.dt[s] * c.DEN * c.VS * K]
+  ELSE r
 
 InitSub(a) ==
   [lvl  |-> 0, hold |-> 0,
